@@ -34,6 +34,13 @@ CLAIMED = {
          "Trusted: petgraph::algo::toposort contract; rustc MIR. Consumers outside forc-pkg/forc-test/sway-lsp are not analysed.",
          "DESIGN.md §3 C22"),
 
+ "C16": ("E-MIR", "other", "MIR call-graph cone + panic-site enumeration with guard idioms; Span constructor encapsulation; char-boundary provenance (backward slices, inter-procedural through params/captures) of every offset handed to the lexer's span constructors",
+         "Decides: every potentially panicking MIR construct reachable from lex / lex_commented / parse_file / parse_module_kind is "
+         "discharged by a machine-checked idiom or a reviewed exactly-keyed site (any new site alarms); Span values can only be built "
+         "behind Span::new's `text.get(start..end)?` check; every offset the lexer turns into a span derives from char-boundary sources; "
+         "in-workspace callers give lex_commented valid ranges. Termination / stack depth are not decided.",
+         "Trusted: rustc MIR/resolution; std, unicode-xid, num-bigint on the paths used; ~70 reviewed sites (spec/c16_sites.txt), each with its argument.",
+         "DESIGN.md §3 C16"),
  "C23": ("E-MIR", "other", "MIR unit-of-measure taint (UTF-16 column vs byte offsets) + panic-site enumeration + dominance/provenance rules on apply_change, validate_range, position_to_index, calculate_line_offsets",
          "Decides structural clauses of document sync: the UTF-16 column reaches byte offsets only through a per-char len_utf16 count; "
          "indices handed to replace_range are char boundaries by provenance and are exactly the validated ones (start<=end<=len) on the Ok "
